@@ -229,10 +229,13 @@ Record mpd_rep := {
   m_timeline : option (list sentry);        (* st.SegmentTimeline *)
   m_startnr : option Z; m_endnr : option Z; (* st.StartNumber, st.EndNumber *)
   m_duration : option Z;                    (* as.SegmentTemplate.Duration *)
-  m_init : init_obs;
+  m_init_at : string -> init_obs;           (* the init segment found at a given URI of the asset *)
   m_files : list fobs;                      (* $Number$: files startNr, startNr+1, ... *)
   m_tfiles : Z -> fobs                      (* $Time$: file for a given time *)
 }.
+
+(** the init segment the MPD points to *)
+Definition m_init (m : mpd_rep) : init_obs := m_init_at m (m_inituri m).
 
 Definition with_table (r : repdata) (mediats : Z) (segs : list cseg) (dsd : Z) (c : option Z) : repdata :=
   {| r_id := r_id r; r_ctype := r_ctype r; r_codecs := r_codecs r; r_mpdts := r_mpdts r;
@@ -289,11 +292,12 @@ Section Loader.
   Variable enc : stored -> B.
   Variable dec : B -> option stored.
 
-  (** loadFromJSON on an existing file *)
-  Definition load_json (b : B) (i : init_obs) : res repdata :=
+  (** loadFromJSON on an existing file: after the decode, addRegExpAndInit reads the init segment
+      that the FILE names (for a stale file that may be another one than the MPD's, or none). *)
+  Definition load_json (b : B) (init_at : string -> init_obs) : res repdata :=
     match dec b with
     | None => Err "json.Unmarshal"
-    | Some s => add_init (of_stored s) i
+    | Some s => add_init (of_stored s) (init_at (s_inituri s))
     end.
 
   (** loadRep: result and the file written (if any). *)
@@ -305,7 +309,7 @@ Section Loader.
       | CAbsent => scan_w
       | CBroken => scan_w              (* logged; the segments are scanned instead *)
       | CBytes b =>
-        match load_json b (m_init m) with
+        match load_json b (m_init_at m) with
         | Ok r => (Ok r, None)
         | Panic s => (Panic s, None)
         | Err _ => scan_w              (* logged; the segments are scanned instead *)
